@@ -1,4 +1,5 @@
 """Data plane: single-file copy scenarios (from TLC's enumeration of XcpData's initial states), real runs, observations."""
+from .common import rmtree as _rmtree
 import os, shutil, tempfile
 from . import fsmat, runner, tlc
 from .common import scratch, rng, ToolError
@@ -49,7 +50,7 @@ def run_one(binary, sc, run_id, cell=None, tail=0, workers=None, plan=None, no_p
             extra=None, strace=None, keep=False, timeout=60, fsync_src=True, life=False):
     """Materialise one source file, optional prior destination; run xcp; observe destination cells and allocation."""
     root = os.path.join(scratch(), "dp-%s" % run_id)
-    shutil.rmtree(root, ignore_errors=True)
+    _rmtree(root)
     os.makedirs(root)
     dense = len(sc["salloc"]) == sc["len"]
     if cell is None:
@@ -135,7 +136,7 @@ def run_one(binary, sc, run_id, cell=None, tail=0, workers=None, plan=None, no_p
     obs["_run"] = {"stderr": r.stderr[-500:], "argv": argv, "env": env, "trace": st["out"] if st else None, "root": root,
                    "timed_out": r.timed_out, "wall": r.wall}
     if not keep:
-        shutil.rmtree(root, ignore_errors=True)
+        _rmtree(root)
     return obs
 
 def strip(o):
